@@ -298,7 +298,7 @@ def judge_hang(pid, quiet_s=8.0):
 
 
 def run(argv, stdin=None, env=None, cwd=None, timeout=120, stdout_path=None,
-        feed=None, drain=None, preexec=None, merge_env=True, hard_factor=3, pass_fds=()):
+        feed=None, drain=None, preexec=None, merge_env=True, hard_factor=3, pass_fds=(), stderr_path=None):
     """Run a child.  stdin: bytes | path(str) | None(/dev/null) | int fd.
     feed: None, or (fragment_sizes list, delay_s) to write stdin through a pipe
     in fragments.  drain: None, or (chunk, delay_s) to read stdout slowly.
@@ -327,14 +327,17 @@ def run(argv, stdin=None, env=None, cwd=None, timeout=120, stdout_path=None,
         fout = open(stdout_path, 'wb'); sout = fout
     else:
         sout = subprocess.PIPE
+    ferr = open(stderr_path, 'wb') if stderr_path is not None else None
     try:
-        proc = subprocess.Popen(argv, stdin=sin, stdout=sout, stderr=subprocess.PIPE,
+        proc = subprocess.Popen(argv, stdin=sin, stdout=sout, stderr=ferr if ferr else subprocess.PIPE,
                                 env=e, cwd=cwd, preexec_fn=preexec, pass_fds=pass_fds)
     finally:
         if fin:
             fin.close()
         if fout:
             fout.close()
+        if ferr:
+            ferr.close()
     outbuf = []; errbuf = []
     threads = []
 
@@ -382,8 +385,9 @@ def run(argv, stdin=None, env=None, cwd=None, timeout=120, stdout_path=None,
     if sout == subprocess.PIPE:
         t = threading.Thread(target=reader, args=(proc.stdout, outbuf, drain), daemon=True)
         t.start(); threads.append(t)
-    t = threading.Thread(target=reader, args=(proc.stderr, errbuf, None), daemon=True)
-    t.start(); threads.append(t)
+    if proc.stderr is not None:
+        t = threading.Thread(target=reader, args=(proc.stderr, errbuf, None), daemon=True)
+        t.start(); threads.append(t)
 
     hard = t_start + timeout * hard_factor
     try:
